@@ -160,7 +160,7 @@ ClassificationOK(op, sub, fq, A, B, allowStale) ==
 \* the event order of the statement: x, y, right before left, then angular (lower segment
 \* first), then subject before clipping.  "undef" where the statement leaves it open
 \* (collinear edges of the same operand from the same point: not a valid input).
-EvBefore(T, a, b) ==
+EvOrderS(T, a, b) ==
   LET ea == T[a] eb == T[b] pa == EPt(ea) pb == EPt(eb)
       oa == EPt(T[EOther(ea)])  ob == EPt(T[EOther(eb)])
   IN IF pa # pb THEN (IF Lex(pa, pb) THEN "yes" ELSE "no")
@@ -182,7 +182,7 @@ EventOrderOK(T, blk) ==
         IN /\ x[3] # 0 /\ x[4] # 0                                       \* never Equal for distinct events
            /\ x[4] = -x[3]                                               \* antisymmetric
            /\ x[3] = 1                                                   \* consistent with one total order (transitive)
-           /\ LET w == EvBefore(T, a, b) IN w # "undef" => w = "yes"     \* ... which is the order of the statement
+           /\ LET w == EvOrderS(T, a, b) IN w # "undef" => w = "yes"     \* ... which is the order of the statement
 
 \* vertical separation evidence of sub-segments s, t: <<s somewhere strictly below t, s somewhere strictly above t>>
 SideOf(p, t) ==    \* +1: p above t, -1: p below t, 0: on it / not comparable
@@ -196,7 +196,7 @@ Separation(s, t) ==
 \* do the two sub-segments ever lie on the sweep line together?  (the later one starts
 \* before the earlier one ends, in sweep order: right events precede left events at a point)
 CoOccur(T, a, b) ==
-  LET first == IF EvBefore(T, a, b) = "no" THEN b ELSE a
+  LET first == IF EvOrderS(T, a, b) = "no" THEN b ELSE a
       second == IF first = a THEN b ELSE a
   IN Lex(EPt(T[second]), EPt(T[EOther(T[first])]))
 
